@@ -270,6 +270,9 @@ func (vc *VC) callFunction(fx *FuncCtx, st *State, fn *ssa.Function, args []Val,
 	if m, ok := builtinModels[name]; ok {
 		return m(vc, fx, st, fn, args, rt, instr)
 	}
+	if r, ok := vc.protoGetter(st, fn, args); ok {
+		return r
+	}
 	if fn.Synthetic != "" && len(fn.Blocks) > 0 {
 		return vc.inline(fx, st, fn, args, bound, rt)
 	}
@@ -1127,4 +1130,45 @@ func (vc *VC) recvFacts(fx *FuncCtx, st *State, ch *Term, v Val, et types.Type, 
 			vc.used["environment assumption on received values: "+rf.Src] = true
 		}
 	}
+}
+
+// protoGetter models the getters generated by protoc-gen-go for message types of package pbx: (*T).GetF() returns
+// x.F, or the zero value when the receiver is nil (their bodies are not loaded; the generated code has exactly this
+// shape).
+func (vc *VC) protoGetter(st *State, fn *ssa.Function, args []Val) (Val, bool) {
+	if len(fn.Blocks) > 0 || fn.Signature.Recv() == nil || len(args) != 1 || !strings.HasPrefix(fn.Name(), "Get") {
+		return nil, false
+	}
+	pt, ok := fn.Signature.Recv().Type().Underlying().(*types.Pointer)
+	if !ok {
+		return nil, false
+	}
+	nt, ok := types.Unalias(pt.Elem()).(*types.Named)
+	if !ok || nt.Obj().Pkg() == nil || !strings.HasSuffix(nt.Obj().Pkg().Path(), "/pbx") {
+		return nil, false
+	}
+	stt, ok := nt.Underlying().(*types.Struct)
+	if !ok || fn.Signature.Results().Len() != 1 {
+		return nil, false
+	}
+	fname := fn.Name()[3:]
+	for i := 0; i < stt.NumFields(); i++ {
+		f := stt.Field(i)
+		if f.Name() != fname || !types.Identical(f.Type(), fn.Signature.Results().At(0).Type()) {
+			continue
+		}
+		recv := asPtr(args[0], pt.Elem())
+		if recv.Kind != PHeap || recv.Base == nil || len(recv.Alts) > 0 {
+			return nil, false
+		}
+		v := st.load(fieldPtr(recv, stt, i))
+		z := zeroVal(f.Type())
+		m, ok := mergeVals(Eq(recv.Base, IntC(0)), z, v)
+		if !ok {
+			return nil, false
+		}
+		vc.used["protobuf getters (*pbx.T).GetF(): return the field, the zero value for a nil receiver"] = true
+		return m, true
+	}
+	return nil, false
 }
